@@ -204,6 +204,16 @@ def make_mixed(ch, params):
 def dispatch(wid, seed, params):
     if params.get('const'):
         return const_task(wid, seed, params)
+    if params.get('stress'):
+        # the contended paths of the big-endian read-modify-writes (retry loops, emulation under the memory's mutex) only run when
+        # threads collide: C16's stress modes on the forced big-endian builds, whose oracles (no update lost, returned old values
+        # form one chain) fail as soon as a value is combined, compared or written back in the wrong byte order
+        from . import c16
+        r = c16.stress_task(wid, seed, params)
+        for v in r['violations']:
+            v['signature'] = v['signature'].replace('c16:', 'c19:')
+        r['classes'] = collections.Counter(dict(('be_contended_' + k, n) for k, n in r['classes'].items()))
+        return r
     return f1.case_task(wid, seed, params)
 
 
@@ -222,6 +232,9 @@ def replay(rp):
             return len(actual) < 2 or actual[1] != rp['expected']
         finally:
             b.close()
+    if rp.get('kind') == 'stress':
+        from . import c16
+        return c16.replay(rp)
     return f1.case_replay(rp)
 
 
@@ -233,12 +246,14 @@ def plan(tier, seed):
         jobs += [{'maker': 'c19_width', 'ncases': 24, 'ccs': BE_CCS, 'shrink_budget': 20, 'reduce_budget': 10} for _ in range(6)]
         jobs += [{'const': True, 'ncases': 6, 'nconst': 300} for _ in range(6)]
         jobs += [{'maker': 'c19_mixed', 'ncases': 10, 'ccs': BE_OPT_CCS, 'shrink_budget': 20, 'reduce_budget': 20} for _ in range(6)]
+        jobs += [{'stress': True, 'ncases': 8, 'builds': ['gcc-O2-be', 'clang-O2-be']} for _ in range(4)]
         return jobs
     jobs = [{'maker': 'c19_mem', 'ncases': 150, 'ccs': BE_CCS + LE_CCS, 'nsteps': 300, 'shrink_budget': 30, 'reduce_budget': 20} for _ in range(20)]
     jobs += [{'maker': 'c19_atomic', 'ncases': 150, 'ccs': BE_CCS + LE_CCS, 'nsteps': 300, 'shrink_budget': 30, 'reduce_budget': 20} for _ in range(20)]
     jobs += [{'maker': 'c19_width', 'ncases': 150, 'ccs': BE_CCS, 'shrink_budget': 30, 'reduce_budget': 20} for _ in range(12)]
     jobs += [{'const': True, 'ncases': 100, 'nconst': 600} for _ in range(12)]
     jobs += [{'maker': 'c19_mixed', 'ncases': 150, 'ccs': BE_OPT_CCS + LE_CCS, 'shrink_budget': 30, 'reduce_budget': 30} for _ in range(12)]
+    jobs += [{'stress': True, 'ncases': 100, 'builds': ['gcc-O2-be', 'clang-O2-be']} for _ in range(8)]
     return jobs
 
 
